@@ -199,6 +199,26 @@ pub(crate) fn value_of_correct_type(
                 }
             }
         }
+        ast::Value::Object(obj)
+            if obj
+                .iter()
+                .enumerate()
+                .any(|(i, (name, _))| obj[..i].iter().any(|(other, _)| other == name)) =>
+        {
+            // Input Object Field Uniqueness
+            for (i, (name, _)) in obj.iter().enumerate() {
+                if let Some((original, _)) = obj[..i].iter().find(|(other, _)| other == name) {
+                    diagnostics.push(
+                        name.location(),
+                        DiagnosticData::UniqueInputValue {
+                            name: name.clone(),
+                            original_definition: original.location(),
+                            redefined_definition: name.location(),
+                        },
+                    );
+                }
+            }
+        }
         ast::Value::Object(obj) => match &type_definition {
             schema::ExtendedType::Scalar(scalar) if !scalar.is_built_in() => {}
             schema::ExtendedType::InputObject(input_obj) => {
